@@ -301,7 +301,9 @@ def trim(ctx):
 
     old = ctx.timeout_ms
     ctx.timeout_ms = max(old, 300000)    # the congruence hints take 10-40 s depending on machine load: budget >= 8x
-    ctx.verify("", TOOLS, "trim_weights", setup, post, loops={0: LoopSpec(inv, label="scan", hints=hints)}, registry={}, replayer="c20_trim")
+    ctx.verify("", TOOLS, "trim_weights", setup, post, loops={0: LoopSpec(inv, label="scan", hints=hints,
+                                                                                    variant=(lambda v: ("int", v["i"])) if ctx.prop == "C18" else None)},
+               registry={}, replayer="c20_trim")
     ctx.timeout_ms = old
 
 
